@@ -1,5 +1,8 @@
 // ===== prelude/dense_assumed.rs : DenseMatrix operations seen through their contracts (each proved in group `dense`) =====
 verus! {
+impl MatrixCoordinates {
+//@assume dense_mc_new
+}
 impl<T: MatrixElement, C: Unsigned> DenseMatrix<T, C> {
 //@assume dense_new
 //@assume dense_with_capacity
